@@ -19,7 +19,7 @@ Unconnected Send wrapper and Multiple Service Packet, the stream loop `serve`, r
 * **finding** `nested_bundles_superlinear`: Multiple Service Packets nested in one another make the parsers'
   work quadratic (each level re-parses everything inside it) -- the linear bound holds only without nesting
 * state protection: `tags_change_only_by_write` (stream), `frame_change_is_write`, `bad_frame_isolated`,
-  `request_change_is_write`
+  `request_change_is_write`, `hostile_stream_no_effect`, `later_session_unaffected`
 * replies: `decoded_frame_is_answered`
 * the no-progress detection of the parser engine: `engine_no_progress_stops`
 
@@ -330,6 +330,15 @@ theorem hostile_stream_no_effect (fate : Nat → Bool) (d : Dev) (bs : Bytes)
     rw [hbad off hd pl rest dk h1] at h2
     exact absurd h2 (by simp)
 
+/-- **After hostile input the simulator serves the next session exactly as if that input had never arrived**:
+the device is the only state sessions share in the model, and a stream without a well-formed request leaves it
+untouched -- so every later stream `next` (a new session, or the rest of an existing one) gets the same replies
+and has the same effect. -/
+theorem later_session_unaffected (fate fate' : Nat → Bool) (d : Dev) (bs next : Bytes)
+    (hbad : ∀ off hd pl rest dk, splitFrame (bs.drop off) = some (hd, pl, rest) → decodeFrame dk hd pl = none) :
+    serve fate' (serve fate d bs).1 next = serve fate' d next := by
+  rw [hostile_stream_no_effect fate d bs hbad]
+
 /-! ### replies -/
 
 /-- **A well-formed request is always answered** (one reply frame; the session goes on unless the reply could
@@ -389,6 +398,16 @@ example : serve (fun _ => true) demoDev badFrame = (demoDev, [.other]) := by dec
 
 example : (serve (fun _ => true) demoDev (badFrame ++ writeFrame)).1 ≠ demoDev
     ∧ (serve (fun _ => false) demoDev (badFrame ++ writeFrame)).1 = demoDev := by decide +kernel
+
+/-- the hypothesis of `hostile_stream_no_effect` / `later_session_unaffected` holds e.g. for every stream that is
+too short to hold a frame (and, by evaluation above, for `badFrame`) -/
+example : ∀ off hd pl rest (dk : Dev), splitFrame ((writeFrame.take 20).drop off) = some (hd, pl, rest) →
+    decodeFrame dk hd pl = none := by
+  intro off hd pl rest dk h
+  have h1 := (splitFrame_spec h).1
+  have h2 : ((writeFrame.take 20).drop off).length ≤ 20 := by
+    simp only [List.length_drop, List.length_take]; omega
+  omega
 
 /-- a truncated frame: nothing is processed -/
 example : serve (fun _ => true) demoDev (writeFrame.take 67) = (demoDev, []) := by decide +kernel
